@@ -6,7 +6,7 @@ import UgoVerif.Proofs.CompileInv
 namespace UgoVerif.Compile
 open UgoVerif UgoVerif.Go UgoVerif.Ast
 
-theorem tablesOK_cons {t : Table} {ts : List Table} (ht : StoreOK t.store) (h : TablesOK ts) : TablesOK (t :: ts) := by
+theorem tablesOK_cons {t : Table} {ts : List Table} (ht : TableOK t) (h : TablesOK ts) : TablesOK (t :: ts) := by
   intro t' ht'
   simp at ht'
   rcases ht' with ht' | ht'
@@ -61,7 +61,7 @@ theorem good_withBlock {body : CM Unit} (hb : Good body) : Good (withBlock body)
   generalize hs1 : ({ s with tables := _ :: s.tables } : CState) = s1
   have hi1 : Inv s1 := by
     subst hs1
-    exact hs.of_tables (by simp) (tablesOK_cons storeOK_nil hs.tabs) rfl rfl
+    exact hs.of_tables (by simp) (tablesOK_cons ⟨storeOK_nil, Nat.le_refl _⟩ hs.tabs) rfl rfl
   have ht1 : s1.tables.length = s.tables.length + 1 := by subst hs1; simp
   have hin1 : s1.insts = s.insts := by subst hs1; rfl
   have hl1 : s1.loops = s.loops := by subst hs1; rfl
@@ -259,21 +259,6 @@ theorem good_defineLocal (name : String) : Good (defineLocal name) := by
   good
   exact good_modHead fun t ht => by simpa using putSym_ok (by intro hc; simp at hc) ht
 
-theorem good_setParamsLoop (pos : Pos) : ∀ (ps : List String) (k : Nat), Good (setParamsLoop pos ps k)
-  | [], _ => by unfold setParamsLoop; good
-  | p :: r, k => by
-    have := good_setParamsLoop pos r (k + 1)
-    have hk : Good (modHead fun t => { t with numParams := k }) := good_modHead fun t ht => ht
-    unfold setParamsLoop
-    good
-    exact good_modHead fun t ht => by simpa using putSym_ok (by intro hc; simp at hc) ht
-
-theorem good_setParams (pos : Pos) (ps : List String) : Good (setParams pos ps) := by
-  have := good_setParamsLoop pos ps 0
-  unfold setParams
-  good
-  exact good_modHead fun t ht => ht
-
 theorem good_defineConstLitSym (name : String) {v : Option CVal} (hv : v.isSome = true) :
     Good (defineConstLitSym name v) := by
   unfold defineConstLitSym
@@ -327,11 +312,15 @@ theorem lookupSym_putSym_self (n : String) (y : Symbol) : ∀ st : List (String 
       exact lookupSym_putSym_self n y r
 
 theorem updateMaxDefs_head (n : Nat) (t : Table) (r : List Table) :
-    ∃ t' r', updateMaxDefs n (t :: r) = t' :: r' ∧ t'.store = t.store := by
+    ∃ t' r', updateMaxDefs n (t :: r) = t' :: r' ∧ t'.store = t.store ∧ t'.numDefinition = t.numDefinition ∧
+      t'.numParams = t.numParams ∧ n ≤ t'.maxDefinition ∧ t.maxDefinition ≤ t'.maxDefinition := by
   simp only [updateMaxDefs]
   split
-  · refine ⟨_, _, rfl, ?_⟩; split <;> rfl
-  · refine ⟨_, _, rfl, ?_⟩; split <;> rfl
+  · refine ⟨_, _, rfl, ?_⟩; split <;> simp <;> omega
+  · refine ⟨_, _, rfl, ?_⟩; split <;> simp <;> omega
+
+theorem nextIndex_ge (t : Table) (r : List Table) : t.numDefinition ≤ nextIndex (t :: r) := by
+  simp only [nextIndex]; split <;> omega
 
 theorem runCM_modTables (g : List Table → List Table) (s : CState) :
     runCM (modTables g) s = (.ok (), { s with tables := g s.tables }) := rfl
@@ -340,6 +329,32 @@ theorem runCM_modHead (f : Table → Table) {s : CState} {t : Table} {r : List T
     runCM (modHead f) s = (.ok (), { s with tables := f t :: r }) := by
   unfold modHead
   rw [runCM_modTables, h]
+
+/-- the state after `DefineLocal` / `SetParams` created a new local symbol `name` in the head table -/
+theorem defineNew_state {name : String} {s : CState} {t : Table} {r : List Table} (hs : Inv s) (htr : s.tables = t :: r)
+    (s2 : CState) (hs2 : s2 = { s with tables := updateMaxDefs (nextIndex s.tables + 1) (shadowBuiltin s.builtins name { t with numDefinition := t.numDefinition + 1, store := putSym name { name := name, index := (nextIndex s.tables : Int), scope := Scope.local_ } t.store } :: r) }) :
+    Inv s2 ∧ Rel s s2 ∧ ∃ t' r', s2.tables = t' :: r' ∧
+      lookupSym name t'.store = some { name := name, index := (nextIndex s.tables : Int), scope := Scope.local_ } ∧
+      t'.numDefinition = t.numDefinition + 1 ∧ t.numDefinition + 1 ≤ t'.maxDefinition ∧ t'.numParams = t.numParams := by
+  subst hs2
+  generalize hsym : ({ name := name, index := (nextIndex s.tables : Int), scope := Scope.local_ } : Symbol) = sym
+  have hsok : SymOK sym := by subst hsym; intro hc; simp at hc
+  generalize ht1 : shadowBuiltin s.builtins name { t with numDefinition := t.numDefinition + 1, store := putSym name sym t.store } = t1
+  have hst1 : t1.store = putSym name sym t.store := by subst ht1; simp
+  have hnd1 : t1.numDefinition = t.numDefinition + 1 := by subst ht1; unfold shadowBuiltin; split <;> rfl
+  have hnp1 : t1.numParams = t.numParams := by subst ht1; simp
+  have hmd1 : t1.maxDefinition = t.maxDefinition := by subst ht1; simp
+  obtain ⟨t', r', hu, hst', hnd', hnp', hge, hmd'⟩ := updateMaxDefs_head (nextIndex s.tables + 1) t1 r
+  have htt := hs.tabs t (by simp [htr])
+  have htabs : TablesOK (updateMaxDefs (nextIndex s.tables + 1) (t1 :: r)) := by
+    apply updateMaxDefs_ok
+    apply tablesOK_cons
+    · exact htt.of_store (by rw [hst1]; exact putSym_ok hsok htt.store) hnp1 (by rw [hmd1]; exact Nat.le_refl _)
+    · have := hs.tabs; rw [htr] at this; exact tablesOK_tail this
+  have hni := nextIndex_ge t r
+  rw [← htr] at hni
+  refine ⟨hs.of_tables (by simp [hu]) htabs rfl rfl, Rel.of_same (by simp [updateMaxDefs_length, htr]) rfl rfl,
+    t', r', hu, by rw [hst', hst1]; exact lookupSym_putSym_self _ _ _, by rw [hnd', hnd1], by omega, by rw [hnp', hnp1]⟩
 
 theorem sat_defineLocal {name : String} {s : CState} {Q : Symbol × Bool → CState → Prop} (hs : Inv s)
     (h : ∀ sym ex s', Inv s' → Rel s s' →
@@ -363,28 +378,61 @@ theorem sat_defineLocal {name : String} {s : CState} {Q : Symbol × Bool → CSt
         · injection hd with hd; subst hd; assumption
       · cases hd
     apply Sat.pure
-    exact h sym true s hs (Rel.refl s) ⟨t, r, htr, hl⟩ (lookupSym_ok (hs.tabs t (by simp [htr])) hl)
+    exact h sym true s hs (Rel.refl s) ⟨t, r, htr, hl⟩ (lookupSym_ok (hs.tabs t (by simp [htr])).store hl)
   · rename_i hl
     apply Sat.bind_of_run (runCM_modHead _ htr)
     apply Sat.bind_of_run (runCM_modTables _ _)
     apply Sat.pure
-    simp only
-    generalize hsym : ({ name := name, index := (nextIndex s.tables : Int), scope := Scope.local_ } : Symbol) = sym
-    have hsok : SymOK sym := by subst hsym; intro hc; simp at hc
-    generalize ht1 : shadowBuiltin s.builtins name { t with numDefinition := t.numDefinition + 1, store := putSym name sym t.store } = t1
-    have hst1 : t1.store = putSym name sym t.store := by subst ht1; simp
-    obtain ⟨t', r', hu, hst'⟩ := updateMaxDefs_head (nextIndex s.tables + 1) t1 r
-    have htabs : TablesOK (updateMaxDefs (nextIndex s.tables + 1) (t1 :: r)) := by
-      apply updateMaxDefs_ok
-      apply tablesOK_cons
-      · rw [hst1]; exact putSym_ok hsok (hs.tabs t (by simp [htr]))
-      · have := hs.tabs; rw [htr] at this; exact tablesOK_tail this
-    apply h sym false
-    · exact hs.of_tables (by simp [hu]) htabs rfl rfl
-    · exact Rel.of_same (by simp [updateMaxDefs_length, htr]) rfl rfl
-    · exact ⟨t', r', hu, by rw [hst', hst1]; exact lookupSym_putSym_self _ _ _⟩
-    · exact hsok
+    obtain ⟨hi2, hr2, t', r', hu, hlk, _⟩ := defineNew_state (name := name) hs htr _ rfl
+    exact h _ false _ hi2 hr2 ⟨t', r', hu, hlk⟩ (by intro hc; simp at hc)
 
+/-- the loop of `SetParams`: `k` parameters are defined so far -/
+theorem sat_setParamsLoop (pos : Pos) : ∀ (ps : List String) (k : Nat) (s : CState), Inv s →
+    (∃ t r, s.tables = t :: r ∧ k ≤ t.numDefinition ∧ k ≤ t.maxDefinition) →
+    Sat (setParamsLoop pos ps k) s (fun _ s' => Inv s' ∧ Rel s s' ∧
+      ∃ t r, s'.tables = t :: r ∧ k + ps.length ≤ t.maxDefinition)
+  | [], k, s, hs, ⟨t, r, htr, _, hk⟩ => by
+    unfold setParamsLoop
+    exact Sat.pure ⟨hs, Rel.refl s, t, r, htr, by simpa using hk⟩
+  | p :: rest, k, s, hs, ⟨t, r, htr, hk1, hk2⟩ => by
+    unfold setParamsLoop
+    apply Sat.bind
+    apply Sat.get
+    apply Sat.bind_of_run (runCM_headTable htr)
+    split
+    · apply Sat.bind_of_run (runCM_modHead _ htr)
+      exact Sat.cerr
+    · apply Sat.bind_of_run (runCM_modHead _ htr)
+      apply Sat.bind_of_run (runCM_modTables _ _)
+      obtain ⟨hi2, hr2, t', r', hu, _, hnd, hmd, _⟩ := defineNew_state (name := p) hs htr _ rfl
+      apply Sat.mono (sat_setParamsLoop pos rest (k + 1) _ hi2 ⟨t', r', hu, by omega, by omega⟩)
+      intro _ s3 ⟨hi3, hr3, t3, r3, h3, hle⟩
+      exact ⟨hi3, hr2.trans hr3, t3, r3, h3, by simp only [List.length_cons]; omega⟩
+
+theorem good_setParams (pos : Pos) (ps : List String) : Good (setParams pos ps) := by
+  intro s hs
+  obtain ⟨t, r, htr⟩ : ∃ t r, s.tables = t :: r := by
+    cases h : s.tables with
+    | nil => exact absurd h hs.ne
+    | cons t r => exact ⟨t, r, rfl⟩
+  unfold setParams
+  split
+  · exact Sat.pure ⟨hs, Rel.refl s, trivial⟩
+  · apply Sat.bind_of_run (runCM_headTable htr)
+    split
+    · exact Sat.cerr
+    · split
+      · exact Sat.cerr
+      · apply Sat.bind
+        apply Sat.mono (sat_setParamsLoop pos ps 0 s hs ⟨t, r, htr, Nat.zero_le _, Nat.zero_le _⟩)
+        intro _ s1 ⟨hi1, hr1, t1, r1, h1, hle⟩
+        apply Sat.of_run (runCM_modHead _ h1)
+        have htt := hi1.tabs t1 (by simp [h1])
+        have htabs : TablesOK ({ t1 with numParams := ps.length } :: r1) := by
+          apply tablesOK_cons
+          · exact ⟨htt.store, by simpa using hle⟩
+          · have := hi1.tabs; rw [h1] at this; exact tablesOK_tail this
+        exact ⟨hi1.of_tables (by simp) htabs rfl rfl, hr1.trans (Rel.of_same (by simp [h1]) rfl rfl), trivial⟩
 
 theorem good_compileDefine (pos : Pos) (ident : String) (allow : Bool) (keyword : Nat) :
     Good (compileDefine pos ident allow keyword) := by
@@ -418,8 +466,9 @@ theorem good_compileDefine (pos : Pos) (ident : String) (allow : Bool) (keyword 
           have hnc : sym.scope ≠ .constLit := fun h => hc (hok h).1
           have htabs : TablesOK ({ t with store := putSym ident { sym with constant := keyword == tConst && ident != "_" } t.store } :: r) := by
             apply tablesOK_cons
-            · exact putSym_ok (y := { sym with constant := keyword == tConst && ident != "_" })
-                (fun h => absurd h hnc) (hi2.tabs t (by rw [ht2, htr]; simp))
+            · have htt := hi2.tabs t (by rw [ht2, htr]; simp)
+              exact ⟨putSym_ok (y := { sym with constant := keyword == tConst && ident != "_" })
+                (fun h => absurd h hnc) htt.store, htt.params⟩
             · have := hi2.tabs; rw [ht2, htr] at this; exact tablesOK_tail this
           refine ⟨hi2.of_tables (by simp) htabs rfl rfl, hr1.trans (hr2.trans (Rel.of_same ?_ rfl rfl)), trivial⟩
           simp [ht2, htr]
@@ -602,7 +651,7 @@ def GoodS {α} (P : α → CState → Prop) (m : CM α) : Prop :=
 theorem sat_finishTail (lastOp : Nat) (pend : List Nat) (s : CState) (hs : Inv s)
     (hp : PendOK s.insts s.insts.size pend)
     (hl : (s.insts.size = 0 ∧ lastOp = 0) ∨ LastAt s.insts s.insts.size lastOp) :
-    Sat (finishTail lastOp pend) s (fun fn s' => Inv s' ∧ Rel s s' ∧ FinStream s'.constants.size fn.insts) := by
+    Sat (finishTail lastOp pend) s (fun fn s' => Inv s' ∧ Rel s s' ∧ FinFn s'.constants.size fn) := by
   unfold finishTail
   by_cases hc : (lastOp != OpReturn || !pend.isEmpty) = true
   · rw [if_pos hc]
@@ -614,11 +663,13 @@ theorem sat_finishTail (lastOp : Nat) (pend : List Nat) (s : CState) (hs : Inv s
     apply Sat.pure
     apply Sat.bind
     apply Sat.get
-    apply Sat.bind
-    apply Sat.mono (good_headTable s1 hi1)
-    intro t s2 ⟨hi2, hr2, _⟩
+    obtain ⟨t0, r0, h0⟩ : ∃ t0 r0, s1.tables = t0 :: r0 := by
+      cases h : s1.tables with
+      | nil => exact absurd h hi1.ne
+      | cons t r => exact ⟨t, r, rfl⟩
+    apply Sat.bind_of_run (runCM_headTable h0)
     apply Sat.pure
-    refine ⟨hi2, hr1.trans hr2, ⟨hi1.walk, hi1.targets.mono hr2.csz⟩, ?_, ?_⟩
+    refine ⟨hi1, hr1, ⟨⟨hi1.walk, hi1.targets⟩, ?_, ?_⟩, (hi1.tabs t0 (by simp [h0])).params⟩
     · exact jumpsStrict_append hs.targets hs.walk hr1.pre (by rw [hsz, hopb]) hget (by rw [hopb]; rfl) (by rw [hopb]; decide)
     · exact endsInReturn_append hs.walk hr1.pre (by rw [hsz, hopb]) hget hopb
   · rw [if_neg hc]
@@ -631,16 +682,18 @@ theorem sat_finishTail (lastOp : Nat) (pend : List Nat) (s : CState) (hs : Inv s
     apply Sat.pure
     apply Sat.bind
     apply Sat.get
-    apply Sat.bind
-    apply Sat.mono (good_headTable s hs)
-    intro t s2 ⟨hi2, hr2, _⟩
+    obtain ⟨t0, r0, h0⟩ : ∃ t0 r0, s.tables = t0 :: r0 := by
+      cases h : s.tables with
+      | nil => exact absurd h hs.ne
+      | cons t r => exact ⟨t, r, rfl⟩
+    apply Sat.bind_of_run (runCM_headTable h0)
     apply Sat.pure
-    refine ⟨hi2, hr2, ⟨hs.walk, hs.targets.mono hr2.csz⟩, jumpsStrict_of_pend hs.targets hp, ?_⟩
+    refine ⟨hs, Rel.refl s, ⟨⟨hs.walk, hs.targets⟩, jumpsStrict_of_pend hs.targets hp, ?_⟩, (hs.tabs t0 (by simp [h0])).params⟩
     rcases hl with ⟨_, h0⟩ | hl
     · rw [hlo] at h0; cases h0
     · rw [hlo] at hl; exact hl
 
-theorem goodS_finishFn : GoodS (fun fn s' => FinStream s'.constants.size fn.insts) finishFn := by
+theorem goodS_finishFn : GoodS (fun fn s' => FinFn s'.constants.size fn) finishFn := by
   intro s hs
   unfold finishFn
   apply Sat.bind
@@ -655,7 +708,7 @@ theorem goodS_finishFn : GoodS (fun fn s' => FinStream s'.constants.size fn.inst
     exact sat_finishTail l P s hs hspec.1 hspec.2
 
 theorem goodS_withFn (pos : Pos) (variadic : Bool) (params : List String) {body : CM Unit} (hb : Good body) :
-    GoodS (fun r s' => FinStream s'.constants.size r.1.insts) (withFn pos variadic params body) := by
+    GoodS (fun r s' => FinFn s'.constants.size r.1) (withFn pos variadic params body) := by
   intro s hs
   obtain ⟨t, r, htr⟩ : ∃ t r, s.tables = t :: r := by
     cases h : s.tables with
@@ -666,7 +719,7 @@ theorem goodS_withFn (pos : Pos) (variadic : Bool) (params : List String) {body 
   generalize hs1 : ({ s with tables := _ :: s.tables } : CState) = s1
   have hi1 : Inv s1 := by
     subst hs1
-    exact hs.of_tables (by simp) (tablesOK_cons storeOK_nil hs.tabs) rfl rfl
+    exact hs.of_tables (by simp) (tablesOK_cons ⟨storeOK_nil, Nat.le_refl _⟩ hs.tabs) rfl rfl
   have ht1 : s1.tables.length = s.tables.length + 1 := by subst hs1; simp
   have hin1 : s1.insts = s.insts := by subst hs1; rfl
   have hl1 : s1.loops = s.loops := by subst hs1; rfl
